@@ -175,7 +175,7 @@ fn cfg_strategy_inner(p: Profile, thorough: bool) -> BoxedStrategy<Cfg> {
             Profile::Prespawn => {
                 c.prespawn = true;
                 c.faults = b1 && b2;
-                vis.prop_map(move |v| Cfg { vis: v, ..c.clone() }).boxed()
+                (vis, prop_oneof![3 => Just(0u8), 1 => Just(1u8)]).prop_map(move |(v, a)| Cfg { vis: v, auth: a, ..c.clone() }).boxed()
             }
             Profile::Periodic => {
                 c.periodic = true;
